@@ -157,17 +157,19 @@ def rule_merge(ck: Check, repo: Repo, rid: str = "R3") -> None:
     # output loop: tabulated as a generic element; add() on every path, no continue/break
     class H(Hooks):
         def event(self, text, call, it):
-            if ast.unparse(call.func) == "copyright_out.add":
+            if isinstance(call.func, ast.Attribute) and call.func.attr == "add" and call.args and \
+                    ast.unparse(call.args[0]).startswith("make_copyright_line("):
                 return ("add", it.text(call.args[0]))
             return None
 
+    out_label = f"each {ast.unparse(out_loop.target)} in {ast.unparse(out_loop.iter)}"
     leaves = tabulate(fn, H())
     adds_seen = 0
     for d, leaf, _ in leaves:
         adds = []
         ends = []
         for e in leaf.events:
-            if e[0] == "each" and e[1][-1].startswith("each line_info") and len(e[1]) == 1:
+            if e[0] == "each" and len(e[1]) == 1 and e[1][-1] == out_label:
                 if e[2][0] == "add":
                     adds.append(e[2][1])
                 if e[2][0] == "element-end":
@@ -180,15 +182,18 @@ def rule_merge(ck: Check, repo: Repo, rid: str = "R3") -> None:
             continue
         adds_seen += 1
         a = adds[0]
-        if not a.startswith("make_copyright_line(str(line_info['statement']), "):
+        if not re.match(r"make_copyright_line\(str\(\w+\['statement'\]\), ", a):
             r.violation(q, "merged notice is not built from the line's own statement", a[:120], repo.loc(out_loop))
     r.floor(1, "paths with a merged notice", got=adds_seen)
-    osrc = ast.unparse(out_loop)
+    from ..rules import has
+    osrc = ast.unparse(fn)
+    L = ["item", "copyright_in", "statement", "copy", "copyright_list", "years", "year", "line_info"]
     checks = {
-        "same-statement group": "[item for item in copyright_in if item['statement'] == statement]" in osrc,
-        "years of the whole group": "for copy in copyright_list:\n        years += copy['year']" in osrc,
-        "single year": "if min(years) == max(years):\n            year = min(years)" in osrc,
-        "range min - max": "year = f'{min(years)} - {max(years)}'" in osrc,
+        "same-statement group": has(osrc, "copyright_list = [item for item in copyright_in if item['statement'] == statement]", L)
+        and has(osrc, "for line_info in copyright_in: statement = str(line_info['statement'])", L),
+        "years of the whole group": has(osrc, "for copy in copyright_list: years += copy['year']", L),
+        "single year": has(osrc, "if min(years) == max(years): year = min(years)", L),
+        "range min - max": has(osrc, "year = f'{min(years)} - {max(years)}'", L),
     }
     for name, ok in checks.items():
         r.instance(name, {"ok": ok})
@@ -230,7 +235,7 @@ def rule_merge(ck: Check, repo: Repo, rid: str = "R3") -> None:
     single = [b for b in branches if Lang.from_regex(b[0], 0, alpha, "match").accepts(dg)]
     rng = [b for b in branches if Lang.from_regex(b[0], 0, alpha, "match").accepts(f"{dg}-{dg}") or
            Lang.from_regex(b[0], 0, alpha, "match").accepts(f"{dg} - {dg}")]
-    if not single or single[0][1] not in ("[year]",):
+    if not single or not (single[0][1] == "[year]" or re.fullmatch(r"year\.split\('[^']*\D[^']*'\)", single[0][1] or "")):
         r.violation(f"{CP}._parse_copyright_year", "single year", f"{single}", repo.loc(py))
     for rx, res in rng:
         ok = res in ("[year[:4], year[-4:]]",) or (res is not None and re.fullmatch(r"re\.split\('.*', year\)", res or "") is not None)
